@@ -38,6 +38,12 @@ class CMF:
     def __exit__(self, t, v, tb):
         _log.append(self.tag + ':exit')
         return self.sup
+def rr(n):
+    # re-raises the exception its caller is handling, from n frames further down
+    _log.append('rr')
+    if n > 0:
+        rr(n - 1)
+    raise
 class CMX:
     # a context manager whose __exit__ raises: its exception replaces whatever was leaving the body
     def __init__(self, tag):
@@ -162,6 +168,11 @@ func (c *c02Gen) exitAction(cx c02Ctx) string {
 			if cx.inHandler {
 				act = "raise"
 				c.kinds["bare-raise"] = true
+				if g.Chance(1, 3) {
+					// the bare raise sits in a called function: it re-raises what the calling frame is handling
+					act = g.Str("rr(0)", "rr(1)")
+					c.kinds["bare-raise-in-callee"] = true
+				}
 			}
 		}
 	}
